@@ -57,6 +57,27 @@ def check(chk):
         'partition_key_index = dict(((col.db_field_name, col._partition_key_index) for col in key_cols))' in s
     chk.judge(good, 'C38.serializer', meta, 'serializer zips the partition-key cql types (key order) with the parts; index map db_field_name -> key position', 'key serializer construction changed')
     chk.judge('v._partition_key_index = partition_key_index' in s and 'partition_key_index += 1' in s, 'C38.serializer', meta, 'partition key positions assigned in declaration order', 'key position assignment changed')
+    # dense numbering: a position taken from the running counter is the one the column keeps (a column that overrides an inherited one
+    # reuses the inherited position and must not consume a new one), otherwise the index map has a gap and parts[index] overflows
+    chk.rule('C38.dense', 'the running partition-key counter is advanced only for a column that keeps the position taken from it (no later overwrite of v._partition_key_index in the same iteration)')
+    gm = CFG(meta)
+    incs = [n for n in gm.stmt_nodes() if n.kind == 'stmt' and isinstance(n.ast, ast.AugAssign) and src(n.ast.target) == 'partition_key_index']
+    if not incs:
+        raise AnalysisError('ModelMetaClass.__new__: counter increment not found')
+    for inc in incs:
+        seen, work, bad = set(), [x for x, _l in inc.succ], []
+        while work:
+            n = work.pop()
+            if n.id in seen or n.kind == 'for_iter':
+                continue
+            seen.add(n.id)
+            if n.kind == 'stmt' and isinstance(n.ast, ast.Assign) and any(src(t).endswith('._partition_key_index') for t in n.ast.targets) and src(n.ast.value) != 'partition_key_index':
+                bad.append(n)
+                continue
+            work.extend(x for x, _l in n.succ)
+        chk.judge(not bad, 'C38.dense', inc.ast, 'counter advanced only for a column that keeps its position',
+                  'after the counter was advanced the same column\'s position is overwritten (%s): a subclass that re-declares an inherited partition key and adds another one gets a gapped '
+                  'index map ({a: 0, b: 1, c: 3}); partition_key_values allocates 3 slots and parts[3] raises IndexError for every statement that fixes the whole key' % [src(b.ast) for b in bad])
     chk.judge("attrs['_partition_key_index'] = partition_key_index" in s and "attrs['_key_serializer'] = key_serializer" in s, 'C38.serializer', meta, 'both stored on the model class', 'storage of index/serializer changed')
     pk = st.func('BaseCQLStatement.partition_key_values')
     up = st.func('BaseCQLStatement._update_part_key_values')
